@@ -89,6 +89,54 @@ def table_sensitive_divisors(rng, per=2, tries=260):
     return sorted(set(out))
 
 
+def _recip_sim_v1(d, dv1):
+    """_recip_sim with the first Newton iterate moved by dv1 (published table)."""
+    M = B - 1
+    d0, d9, d40, d63 = d & 1, d >> 55, (1 + (d >> 24)) & M, ((d + 1) & M) >> 1
+    v0 = _MG10_TABLE[d9 - 256]
+    v1 = ((v0 << 11) - (((v0 * v0 * d40) & M) >> 40) - 1 + dv1) & M
+    v2 = ((v1 << 13) + (((v1 * (((1 << 60) - v1 * d40) & M)) & M) >> 47)) & M
+    e = (((v2 >> 1) & ((0 - d0) & M)) - v2 * d63) & M
+    v3 = ((((v2 * e) >> 64) >> 1) + (v2 << 31)) & M
+    return (v3 - ((v3 * d + d) >> 64) - d) & M
+
+
+def first_step_rounding_edges(rng, window=40_000_000, per_row=4):
+    """Divisors at which the FIRST Newton step of the reciprocal sits on a rounding boundary AND its result matters.
+    v1 = 2^11 v0 - floor(v0^2 d40 / 2^40) - 1: the floor jumps exactly at d40 = ceil(k 2^40 / v0^2); an implementation that
+    feeds a slightly different d40 (one less, one more, truncated instead of rounded up) gets a v1 that differs by one
+    exactly at those d40 (and the ones just before).  A v1 that is one too large is absorbed by the later steps almost
+    everywhere - except near d40 = 2^50 / v0, where v1 d40 is within one d40 of 2^60 and `2^60 - v1 d40` changes sign.
+    The intersection (a few 40-bit prefixes per table row, about 1e-9 of all divisors: seed S9-A) is enumerated, not
+    sampled: jump points inside the window around 2^50 / v0, kept when moving v1 by +-1 moves the published algorithm's result."""
+    out = []
+    for row in range(256, 512):
+        v0 = _MG10_TABLE[row - 256]
+        A = v0 * v0
+        lo, hi = ((row << 55) >> 24) + 1, ((((row + 1) << 55) - 1) >> 24) + 1            # range of d40 in this row
+        c = (1 << 50) // v0
+        a, b = max(lo, c - window), min(hi, c + window)
+        k0, k1 = (a * A) >> 40, (b * A) >> 40
+        cand = {0: [], 1: []}                                                          # at the jump / just before it
+        for k in range(k0, k1 + 2):
+            x = -((-k << 40) // A)                                                     # ceil(k 2^40 / A)
+            for kind, d40 in ((0, x), (1, x - 1)):
+                if a <= d40 <= b and ((d40 - 1) << 24) >> 55 == row:
+                    cand[kind].append(d40)
+        for kind, want in ((0, per_row), (1, max(per_row // 2, 1))):
+            found = 0
+            for d40 in rng.sample(cand[kind], len(cand[kind])):
+                base = (d40 - 1) << 24
+                d = base + rng.getrandbits(24)
+                ref = _recip_sim_v1(d, 0)
+                if _recip_sim_v1(d, 1) != ref or _recip_sim_v1(d, -1) != ref:
+                    out += [d, base] if kind == 0 else [d]
+                    found += 1
+                    if found >= want:
+                        break
+    return sorted(set(out))
+
+
 def _recip2_sim(d1, d0):
     """The 3-by-2 reciprocal of Moeller-Granlund (Algorithm 6) on exact integers; returns (third adjustment entered, p, t0)."""
     v = ((1 << 128) - 1) // d1 - B
@@ -229,6 +277,7 @@ def scenarios(tier, rng):
         ds.add((rng.getrandbits(64) | 1 << 63 | ((1 << 40) - 1)) & (B - 1))
         ds.add((rng.getrandbits(64) | 1 << 63) & ~((1 << 24) - 1))
     sens = table_sensitive_divisors(rng, 3 if quick else 6, 700 if quick else 2000)
+    sens += first_step_rounding_edges(rng, 40_000_000, 4 if quick else 24)
     for d in sorted(ds | band | set(sens)):
         sc.append({"g": "kern", "op": "krecip", "d": tobytes(d)})
     d1s = sorted(ds)[:: 12 if quick else 3] + [1 << 63, B - 1]
